@@ -6,7 +6,10 @@ Case = (prog ops).
   node : (0 flavour init)            signal; flavour 0 ArcRwSignal, 1 signal() pair, 2 RwSignal,
                                      3 ArcTrigger-backed cell, 4 arc_signal() pair
          (1 cmp flavour expr)        memo; cmp 0 PartialEq / 1 always-changed; flavour 0 ArcMemo / 1 Memo
-         (2 flavour expr)            derived; flavour 0 closure / 1 Signal::derive / 2 ArcSignal::derive
+         (2 flavour expr)            derived; flavour 0 closure / 1 Signal::derive / 2 ArcSignal::derive;
+                                     wrappers (expr is (1 j): wrap node j, or (0 z): stored constant):
+                                     3 Signal::from / Signal::stored, 4 ArcSignal::from / ArcSignal::stored,
+                                     5 MappedSignal / ArcMappedSignal over an (Arc)RwSignal j, 6 MaybeSignal
          (3 kind body handler)       effect; kind 0 Effect::new, 1 RenderEffect, 2 watch, 3 watch(immediate),
                                      4 Effect::new_isomorphic, 5 ImmediateEffect (not modelled: compare=False)
   expr : (0 z) | (1 j) get | (2 j) get_untracked | (3 e) untrack | (4 a b) + | (5 a b) < | (6 c a b) if | (7 s e) set
@@ -127,7 +130,33 @@ def valid_prog(prog):
                     return False
         if nd[0] == EFF and nd[1] not in (2, 3) and nd[3] != [0, 0]:
             return False
+        if nd[0] == DER and nd[1] >= 3 and not valid_wrapper(prog, i):
+            return False
     return True
+
+
+def wrappable(prog, j, flavour):
+    """can node j be put into wrapper `flavour`"""
+    nd = prog[j]
+    if flavour == 5:
+        return nd[0] == SIG and nd[1] in (0, 2)
+    if nd[0] == SIG:
+        return nd[1] != 3            # the ArcTrigger-backed cell is not a signal type
+    if nd[0] == MEMO:
+        return True
+    if nd[0] == DER:
+        return nd[1] <= 4
+    return False
+
+
+def valid_wrapper(prog, i):
+    nd = prog[i]
+    if nd[1] not in (3, 4, 5, 6):
+        return False
+    b = nd[2]
+    if b[0] == 0:
+        return nd[1] != 5
+    return b[0] == 1 and 0 <= b[1] < i and wrappable(prog, b[1], nd[1])
 
 
 def valid_expr(e, depth=0):
@@ -232,7 +261,7 @@ def gen_expr(rng, readable, depth, p_untr=0.12, sigs=None):
 
 
 def gen_program(rng, n, n_eff=0, p_untr=0.12, p_der=0.15, p_always=0.12, eff_kinds=(0, 0, 1, 2, 3, 4),
-                allow_wr=True, extra_sigs=True):
+                allow_wr=True, extra_sigs=True, p_wrap=0.45):
     """n nodes: signals first (plus a few later ones), memos / derived, n_eff effects spread over the tail"""
     nsig = max(1, min(rng.randint(1, 3), n - n_eff - 1))
     n = max(n, nsig + n_eff)
@@ -269,7 +298,20 @@ def gen_program(rng, n, n_eff=0, p_untr=0.12, p_der=0.15, p_always=0.12, eff_kin
             prog.append([1, 1 if rng.random() < p_always else 0, rng.randint(0, 1),
                          gen_expr(rng, readable, rng.choice([1, 2, 2, 3]), p_untr, sigs)])
         elif k == DER:
-            prog.append([2, rng.randint(0, 2), gen_expr(rng, readable, rng.choice([1, 2]), p_untr, sigs)])
+            nd = None
+            if rng.random() < p_wrap:
+                # a type-erased wrapper around an earlier node (prefer memos and recent nodes)
+                fl = rng.choice([3, 3, 3, 4, 4, 5, 6])
+                cands = [j for j in range(i) if kinds[j] != EFF and wrappable(prog, j, fl)]
+                memos = [j for j in cands if kinds[j] == MEMO]
+                if cands and rng.random() < 0.93:
+                    j = rng.choice(memos) if memos and rng.random() < 0.6 else rng.choice(cands[-4:])
+                    nd = [2, fl, [1, j]]
+                elif fl != 5:
+                    nd = [2, fl, [0, rng.randint(0, 3)]]
+            if nd is None:
+                nd = [2, rng.randint(0, 2), gen_expr(rng, readable, rng.choice([1, 2]), p_untr, sigs)]
+            prog.append(nd)
         else:
             kind = rng.choice(eff_kinds)
             body = gen_expr(rng, readable, rng.choice([1, 2, 3]), p_untr, sigs)
@@ -883,7 +925,8 @@ def describe(item):
             elif nd[0] == MEMO:
                 out.append("n%d = %s%s(%s)" % (i, ["ArcMemo", "Memo"][nd[2] % 2], "[always changed]" if nd[1] else "", show_expr(nd[3])))
             elif nd[0] == DER:
-                out.append("n%d = derived(%s)" % (i, show_expr(nd[2])))
+                wn = ["closure", "Signal::derive", "ArcSignal::derive", "Signal::from", "ArcSignal::from", "MappedSignal", "MaybeSignal::from"]
+                out.append("n%d = %s(%s)" % (i, wn[nd[1]] if 0 <= nd[1] < len(wn) else "derived", show_expr(nd[2])))
             else:
                 h = "" if nd[1] not in (2, 3) else " handler %s" % show_expr(nd[3])
                 out.append("n%d = %s(%s)%s" % (i, ek[nd[1] % 6], show_expr(nd[2]), h))
